@@ -855,6 +855,7 @@ func runBare(events []string, props []string, args map[string]string) (res vx.Re
 			res.Next = append(res.Next, fmt.Sprintf("TRACE step=%d %s %s %d/%d %s %s", e.step, e.kind, e.a, e.h, e.r, h8([]byte(e.hash)), strings.ReplaceAll(e.x, "\n", " ")[:min(len(e.x), 20)]))
 		}
 	}
+	vx.EarlyResult(&res) // the verdict is complete; what follows is teardown
 	return res
 }
 
